@@ -1059,7 +1059,7 @@ func TestCheck(t *testing.T) {
 	defer r.Finish()
 	logrus.SetOutput(io.Discard)
 	debug.SetGCPercent(400) // lz4 streams allocate 4 MiB blocks on both sides; collect less often
-	r.Rule("cases: (a) a fresh MetricMap (1..40, sometimes up to 1800 datapoints over small pools of valid-UTF-8 names / tags / sources / set members incl. empty tag lists, empty sources, empty set member, NUL and 4-byte runes; all four types; gauge and timer values from arbitrary bit patterns incl. NaN, ±Inf, ±0, denormals, ±MaxFloat64; sampled rates; extreme counters and arbitrary sampled counts written into the aggregate) or (b) an event (all 8 priority x alert combinations, empty fields, nil / empty / filled tags, multi-line text, zero / negative / huge dates) is given to a real HttpForwarderHandlerV2 of one of 22 compression configurations (off, none, zlib 0-9, lz4 0-9; configurations cycle so every one is used equally), flushed by hand, and compared with what the real ingestion router dispatched; (c) 4-5 corruptions of the recorded request bytes of every such case (truncate, bit flips, wrong / unknown Content-Encoding label, garbage, other endpoint, trailing bytes, deleted byte, body shorter than Content-Length over raw TCP) are posted to the router and judged against the harness' own decompress + proto.Unmarshal. Non-trivial: a map with >= 3 metric types and a series with both source and tags, distinct by (type mix, compression configuration, non-finite values present); an event with tags and a source, distinct by (priority, alert type, configuration); a corrupt body, distinct by (endpoint, corruption kind, harness-decodable, status class).")
+	r.Rule("cases: (a) a fresh MetricMap (1..40, sometimes up to 1800 datapoints over small pools of valid-UTF-8 names / tags / sources / set members incl. empty tag lists, empty sources, empty set member, NUL and 4-byte runes; all four types; gauge and timer values from arbitrary bit patterns incl. NaN, ±Inf, ±0, denormals, ±MaxFloat64; sampled rates; extreme counters and arbitrary sampled counts written into the aggregate) or (b) an event (all 8 priority x alert combinations, empty fields, nil / empty / filled tags, multi-line text, zero / negative / huge dates) is given to a real HttpForwarderHandlerV2 of one of 22 compression configurations (off, none, zlib 0-9, lz4 0-9; configurations cycle so every one is used equally), flushed by hand, and compared with what the real ingestion router dispatched; (c) 4-5 corruptions of the recorded request bytes of every such case (truncate, bit flips, wrong / unknown Content-Encoding label, garbage, other endpoint, trailing bytes, deleted byte, body shorter than Content-Length over raw TCP) are posted to the router and judged against the harness' own decompress + proto.Unmarshal. (d) retry: the first attempt of a forwarder (map with all four types or event; off / none / zlib / lz4, all 22 configurations in thorough) is answered 503 / 500 / connection reset by a front that has read the whole body, the forwarder's own retry is let through to the real router: re-sent bytes and headers equal the first attempt's, exactly one dispatch equal to the input; (e) concurrent: rounds in which 9 real forwarders and 16 direct posters of previously recorded forwarder bytes are released together against one router, bodies of four size classes (20 .. 5500 datapoints, events up to 20 KiB), each request with a unique id in a tag / the title: all 2xx, per id as many dispatches as 2xx answers, each equal to its own input, no mixture. Non-trivial: a map with >= 3 metric types and a series with both source and tags, distinct by (type mix, compression configuration, non-finite values present); an event with tags and a source, distinct by (priority, alert type, configuration); a corrupt body, distinct by (endpoint, corruption kind, harness-decodable, status class); a retry case by (item, fault, configuration); a concurrent request by (sender, item, encoding, body size class).")
 	r.Assume("compress/zlib, pierrec/lz4 and google.golang.org/protobuf (with the generated pb package) define what a decodable body is; the harness calls them itself, not through pkg/web")
 	r.Assume("ref.FromMap flattening, taken before the map is handed to the forwarder, is a faithful copy of the input")
 
@@ -1077,20 +1077,43 @@ func TestCheck(t *testing.T) {
 	}
 
 	if p := r.ReplayPayload(); p != nil {
-		tc, ok := mon.ReplayCase(p, &tcase{}).(*tcase)
-		if !ok || tc == nil {
+		rc, ok := mon.ReplayCase(p, &replayCase{}).(*replayCase)
+		if !ok || rc == nil {
 			t.Skip("no case in the replay file")
 		}
+		tc := &rc.tcase
 		r.Case("replay %s cfg=%s", tc.Kind, tc.Cfg)
-		if tc.Kind == "corrupt" {
+		switch tc.Kind {
+		case "corrupt":
 			c.corrupt(tc)
-		} else {
+		case "concurrent":
+			// schedule dependent: run the whole concurrent workload of this shard again
+			c.concurrent(r.Pick(6, 40))
+		case "retry":
+			for _, cfg := range cfgs {
+				if cfg.Name == tc.Cfg && rc.Case != nil {
+					c.retryCase(cfg, rc.Item, rc.Fault, tc.Index, rc.Case)
+				}
+			}
+		default:
 			c.valid(tc)
 		}
 		r.Nontrivial("replay-a")
 		r.Nontrivial("replay-b")
 		return
 	}
+
+	// the forwarder's retry path (each wave waits out one real back-off, its cases run in parallel)
+	shard0, _ := r.Shard()
+	t0 := time.Now()
+	for w, nw := 0, r.Pick(1, 6); w < nw; w++ {
+		c.retryWave(w, retryConfigs(cfgs, r.Thorough(), shard0, w))
+	}
+	r.Extra("ms_retry_waves", time.Since(t0).Milliseconds())
+	// many senders at one ingestion router
+	t0 = time.Now()
+	c.concurrent(r.Pick(6, 40))
+	r.Extra("ms_concurrent_rounds", time.Since(t0).Milliseconds())
 
 	rng := r.Rand("c14")
 	nValid := r.N(5200, 110000)
@@ -1134,6 +1157,15 @@ func TestCheck(t *testing.T) {
 	r.Extra("ms_valid_cases", tValid.Milliseconds())
 	r.Extra("ms_corrupt_cases", tCorrupt.Milliseconds())
 	r.Extra("ms_short_read_cases", tShort.Milliseconds())
+}
+
+// replayCase is what a replay file's "case" member decodes into: a sequential case itself, or the
+// description of a retry / concurrent case.
+type replayCase struct {
+	tcase
+	Fault string `json:"fault"`
+	Item  string `json:"item"`
+	Case  *tcase `json:"case"`
 }
 
 func trimHex(s string) string {
